@@ -6,6 +6,8 @@ package c13
 // is ever reverted.  A few positive cases pin behaviour the oracle relies on.
 
 import (
+	"bytes"
+	"encoding/json"
 	"fmt"
 	"net/http"
 	"strings"
@@ -215,4 +217,54 @@ func TestReplayStaleHandlerTeardownKeepsNewStream(t *testing.T) {
 		{Kind: "restart", Changes: []achg{{0, 3}}},
 		{Kind: "up", Changes: []achg{{1, 3}}},
 	}})
+}
+
+// Snapshot-fault family (no finding on the pinned tree: positive pins).  The snapshot request the standby
+// issues right after a successful stream attach is failed — once per outcome — while the tables differ; the
+// standby may report the link up only after a connection attempt whose snapshot succeeded.
+func TestReplaySnapshotFaultAfterStreamAttach(t *testing.T) {
+	defer failIfInconclusive(t)
+	for _, o := range []int{fo5xx, foResetEarly, foResetMid, foTruncated, foGarbled, foGarbledTail} {
+		runLinkCase(t, linkCase{Episodes: []linkEpisode{
+			{Away: []achg{{0, 0}, {0, 1}}, Connected: []achg{{0, 2}}, Faults: faultSet{Snap: []int{o}, Pos: 77}},
+			{Away: []achg{{2, 0}, {1, 1}}, Connected: []achg{{1, 2}}, Faults: faultSet{Snap: []int{o, foDelay, o}, Stream: []int{fo5xx}, Pos: 300}},
+		}})
+	}
+	runE2ECase(t, e2eCase{HeartbeatMS: 50, Phases: []e2ePhase{
+		{Kind: "up", Changes: []achg{{0, 0}, {0, 1}}},
+		{Kind: "fault", Changes: []achg{{2, 0}, {1, 1}, {0, 2}}, Faults: faultSet{Snap: []int{fo5xx, foTruncated}, Pos: 5}},
+		{Kind: "fault", Restart: true, Changes: []achg{{0, 3}}, Faults: faultSet{Stream: []int{foResetEarly}, Snap: []int{foGarbledTail, foResetMid}, Pos: 900}},
+		{Kind: "up", Changes: []achg{{1, 3}}},
+	}})
+}
+
+// Harness self-check: every body the fault injector calls "undecodable" really is, at EVERY position the
+// generated byte can land on (a damaged trailing newline would leave a correct snapshot, and the oracle
+// would then blame the standby for completing a sync that was in fact fine).
+func TestReplayFaultBodiesAreUndecodable(t *testing.T) {
+	for _, sess := range [][]ha.SessionState{nil, {detState("s0", 1)}, {detState("s0", 1), detState("s1", 2), detState("s3", 7)}} {
+		msg := &ha.SyncMessage{Type: ha.SyncTypeFull, Sessions: sess, Timestamp: fixedStamp, NodeID: "active"}
+		body, _ := json.Marshal(msg)
+		body = append(body, '\n')
+		decodes := func(b []byte) bool {
+			var m ha.SyncMessage
+			return json.NewDecoder(bytes.NewReader(b)).Decode(&m) == nil
+		}
+		if !decodes(body) {
+			t.Fatalf("harness: the genuine body does not decode")
+		}
+		for pos := 0; pos < 2*len(body)+3; pos++ {
+			if decodes(mangleSnapshot(body, foGarbled, pos)) {
+				t.Fatalf("harness: garbled-byte body (pos %d of %d) is still a decodable snapshot", pos, len(body))
+			}
+		}
+		for _, o := range []int{foTruncated, foGarbledTail} {
+			if decodes(mangleSnapshot(body, o, 11)) {
+				t.Fatalf("harness: %s body of a %d-session snapshot is still decodable", foName(o), len(sess))
+			}
+		}
+		if decodes(body[:len(body)/2]) {
+			t.Fatalf("harness: half a body decodes")
+		}
+	}
 }
